@@ -1,7 +1,19 @@
+/-
+  C04 on the reactor model, for every accepted round (every sequence of
+  environment decisions the real loop can exhibit and the acceptor recognises).
+-/
 import Gnet.Spec.ReactorSpec
+import Gnet.Proofs.ReactorLife
 namespace Gnet.Props.C04
 open Gnet.Reactor
 
-theorem init_names (cfg : Cfg) : NamesNodup { cfg := cfg } := by simp [NamesNodup]
+/-- the per-connection callback word is `OnOpen OnTraffic* OnClose?`, `opened` tracks it,
+    nothing is registered without being opened, nothing is opened after its descriptor closed -/
+theorem lifecycle (s s' : RState) (toks : List Tok) (hn : NamesNodup s)
+    (h : acceptRound s toks = .ok s') (hl : InvLife s) : InvLife s' :=
+  Proofs.ReactorLife.lifecycle s s' toks hn h hl
+
+theorem lifecycle_init (cfg : Cfg) : InvLife { cfg := cfg } := Proofs.ReactorLife.lifecycle_init cfg
 
 end Gnet.Props.C04
+
